@@ -410,7 +410,9 @@ def run_case(job, case, builder, unit_cls, fn_name, params, kwonly):
     result, raised = None, None
     try:
         with contextlib.redirect_stdout(io.StringIO()):
-            if "self" in env:
+            if "self" in env and isinstance(getattr(type(env["self"]), fn_name, None), property):
+                result = getattr(env["self"], fn_name)
+            elif "self" in env:
                 result = getattr(env["self"], fn_name)(*args, **kwargs)
             else:
                 f = getattr(unit_cls, fn_name)
